@@ -77,7 +77,7 @@ IT k_left_from_right(IT const*, IT const*); IT k_right_from_left(IT const*, IT c
 IT k_stride_map(IT const*, IT const*, IT const*); IT k_stride_map_arr(IT const*, IT const*, IT const*); IT k_stride_stride(IT const*, IT const*, sz);
 void k_stride_strides(IT const*, IT const*, IT*); IT k_stride_ext(IT const*, IT const*, sz); unsigned k_stride_flags(); IT k_stride_req(IT const*, IT const*);
 ELT* k_md_stride_at(ELT*, IT const*, IT const*, IT const*); IT k_md_stride_stride(ELT*, IT const*, IT const*, sz); UIT k_md_stride_size(ELT*, IT const*, IT const*);
-void k_sub_ext(IT const*, sz, IT const*, sz*, sz*, IT*);
+void k_sub_ext(IT const*, sz, IT const*, sz*, sz*, IT*); void k_sub_pair(IT const*, IT, IT, sz*, sz*, IT*);
 }
 
 static idx_t nd_it() { return sizeof(idx_t) == 1 ? idx_t(vf_nd_u8()) : sizeof(idx_t) == 2 ? idx_t(vf_nd_u16()) : sizeof(idx_t) == 4 ? idx_t(vf_nd_u32()) : idx_t(vf_nd_u64()); }
@@ -406,3 +406,15 @@ Q q_sub_ext()
         vf_assert(u64(oex[k]) == kv[k], "submdspan_extents: extent k is that of the k-th kept dimension (hi - lo for a pair)");
     }
 }
+#if RANK == 1
+// a pair of run-time indices [lo, hi) as the slice of the only dimension: [mdspan.sub.extents] rank 1, dynamic extent hi - lo
+Q q_sub_pair()
+{
+    idx_t* e = draw_ext(); idx_t lo = nd_it(), hi = nd_it(); vf_assume(lo >= 0 && lo <= hi && u64(hi) <= u64(e[0]));
+    VF_KNOWN(C19_submdspan_extents_pair_lost, hi != lo);
+    sz* orank = (sz*)vf_alloc(sizeof(sz)); sz* ost = (sz*)vf_alloc(sizeof(sz)); idx_t* oex = block();
+    k_sub_pair(e, lo, hi, orank, ost, oex);
+    vf_assert(*orank == 1 && ost[0] == DYN, "submdspan_extents(pair of indices): rank 1, dynamic extent");
+    vf_assert(u64(oex[0]) == u64(hi) - u64(lo), "submdspan_extents(pair of indices): extent == hi - lo");
+}
+#endif
